@@ -961,6 +961,29 @@ def same_name_classes(res, rng, tier, fam, variants, equal):
                                        fresh_interpreter=ref[v][what][-400:], this_process=got[what][-400:],
                                        rerun='harness/c19_designs.py <variant> 8 prints the reference'))
                     break
+    # simulation history: the text of each circuit before any cycle, and after 1, 2, … further simulation steps (same generator /
+    # fresh generator alternating) must all equal the fresh-interpreter reference (which never simulated)
+    nsteps = 4 if tier == 'quick' else 12
+    for v in variants:
+        d = DS.samename(v, W)
+        keep = py4hw.VerilogGenerator(d['hw'])
+        with L.quiet():
+            sim = d['hw'].getSimulator()
+        hist_ops = []
+        for step in range(nsteps + 1):
+            got = DS.samename_texts(d, keep if step % 2 == 0 else None)
+            res.count(('sim-history', fam, v, step), hist={'sim_history_steps': step})
+            bad = next((w for w in ('hier', 'mod') if got[w] != ref[v][w]), None)
+            if bad:
+                fail_or_known(res, f'text of circuit {v!r} ({fam}) after {step} simulation steps differs from its text in a fresh interpreter (never simulated)',
+                              dict(via=fam, variant=v, request=bad, history='simulation steps before generation', sim_ops=list(hist_ops),
+                                   generator='reused' if step % 2 == 0 else 'fresh', never_simulated=ref[v][bad][-400:], this_process=got[bad][-400:]))
+                break
+            val, n = r2.bits(W), r2.choice([1, 1, 2, 3])
+            d['inputs']['a'].put(val)
+            with L.quiet():
+                sim.clk(n)
+            hist_ops += [('poke', 'a', val), ('clk', n)]
     # the text describes its own circuit: real simulator vs Lean Verilog semantics on the text generated in THIS process
     vb = vsim.VBatch()
     exp = {}
